@@ -77,6 +77,34 @@ def check_write_inventory(repo, rep, rule):
                   '%s %s module-level %s %s from inside the printing pipeline; only the listed idempotent writes are '
                   'allowed there (a cache, counter or memo makes the output depend on call history and is shared by '
                   'all threads)' % (s.fn.key, s.detail, s.obj.kind, s.obj.key), nontrivial=True)
+    # mutable default arguments are module-lifetime state too: a cone function must not write into one
+    MUTATORS = {'append', 'extend', 'insert', 'pop', 'popitem', 'remove', 'clear', 'add', 'discard', 'update', 'setdefault', 'sort', 'reverse', '__setitem__'}
+    for k in sorted(cone):
+        f = next((ff for ff in repo.all_functions() if ff.key == k), None)
+        if f is None:
+            continue
+        a = f.node.args
+        pos = a.posonlyargs + a.args
+        dflt = list(zip(pos[len(pos) - len(a.defaults):], a.defaults)) + [(x, d) for x, d in zip(a.kwonlyargs, a.kw_defaults) if d is not None]
+        for arg, d in dflt:
+            mutable = isinstance(d, (ast.Dict, ast.List, ast.Set, ast.ListComp, ast.DictComp, ast.SetComp)) or \
+                (isinstance(d, ast.Call) and call_name(d) in ('dict', 'list', 'set', 'OrderedDict', 'defaultdict', 'deque', 'WeakSet', 'WeakKeyDictionary'))
+            if not mutable:
+                continue
+            writes = []
+            for x in ast.walk(f.node):
+                if isinstance(x, (ast.Assign, ast.AugAssign, ast.Delete)):
+                    for t in (x.targets if not isinstance(x, ast.AugAssign) else [x.target]):
+                        if isinstance(t, ast.Subscript) and isinstance(t.value, ast.Name) and t.value.id == arg.arg:
+                            writes.append(x)
+                if isinstance(x, ast.Call) and isinstance(x.func, ast.Attribute) and isinstance(x.func.value, ast.Name) \
+                        and x.func.value.id == arg.arg and x.func.attr in MUTATORS:
+                    writes.append(x)
+            n += 1
+            rep.check(not writes, rule, 'cone-mutable-default:%s:%s' % (f.qualname, arg.arg), '%s:%d' % (f.module.relpath, f.node.lineno),
+                      'the mutable default value is never written',
+                      '%s writes into its mutable default argument %s (line %s): the default object lives as long as the module, so what one call '
+                      'stores is seen by every later call and by every thread' % (f.key, arg.arg, writes[0].lineno if writes else '?'), nontrivial=True)
     # ``global X`` rebinding of anything (not only mutable containers) inside the cone
     for k in sorted(cone):
         f = None
@@ -111,6 +139,24 @@ def check_write_inventory(repo, rep, rule):
 
 
 MEMO_DECORATORS = {'lru_cache', 'cache', 'cached_property', 'functools.lru_cache', 'functools.cache', 'functools.cached_property', 'memoize', 'memoized'}
+
+
+def caches_in_cone(repo, rep, rule, why):
+    """no write to module-lifetime state from the printing pipeline besides the reasoned allow-list: imported by properties for
+    which a cache keyed by == (or by a name) conflates values the property tells apart; returns the instance count"""
+    from engine.report import Report
+    sub = Report('C19', rep.tier, rep.seed, quiet=True, write=False)
+    n0 = check_write_inventory(repo, sub, rule)[0]
+    n = 0
+    for i in sub.instances:
+        n += 1
+        if i.verdict == 'holds':
+            rep.ok(rule, i.construct, i.where, i.detail)
+        elif i.verdict == 'VIOLATED':
+            rep.fail(rule, i.construct, i.where, why + ': ' + i.detail)
+        else:
+            rep.undecided(rule, i.construct, i.where, i.detail)
+    return n
 
 
 def memoised_in_cone(repo, rep, rule, why):
@@ -159,6 +205,20 @@ def doc_object_stores(repo, rep, rule):
                                       '%s.%s assigns self.%s outside the lazy-normalisation idiom: document objects '
                                       '(including the shared module-level constants) must be immutable' % (cname, mname, t.attr),
                                       nontrivial=True)
+                # writing into a container held by the document (a per-object cache, a child list)
+                if isinstance(s, (ast.Assign, ast.AugAssign, ast.Delete)):
+                    tgts = s.targets if not isinstance(s, ast.AugAssign) else [s.target]
+                    for t in tgts:
+                        while isinstance(t, ast.Tuple) and t.elts:
+                            t = t.elts[0]
+                        if isinstance(t, ast.Subscript) and src(t.value).startswith('self.'):
+                            n += 1
+                            rep.fail(rule, '%s.%s:stores-into:%s' % (cname, mname, src(t.value)), '%s:%d' % (m.relpath, s.lineno),
+                                     '%s.%s writes into %s: a document remembers something from one layout for the next (documents - including '
+                                     'the shared module-level constants - must be immutable)' % (cname, mname, src(t.value)))
+                for sub in ast.walk(s) if isinstance(s, ast.Assign) else []:
+                    # chained assignment  x = self.attr[k] = value
+                    pass
                 # in-place mutation of child lists
                 if isinstance(s, ast.Call) and isinstance(s.func, ast.Attribute) and s.func.attr in effects.MUTATORS \
                         and src(s.func.value).startswith('self.'):
